@@ -503,7 +503,7 @@ class all_dot_brackets:
                   # pseudoknot-free: the single member is self.fcfs (ghost results fcfs_R / fcfs_O / fcfs_G of its contract).  Its stems
                   # fcfs_R do not cross either: two crossing stems of fcfs_R would start with two crossing base pairs, which lie on
                   # two different crossing stems of `regions` (every pair lies on one: GS; strands of different stems are apart)
-                  "assert implies(knot_free(regions), len(result) == 1 and result[0] is fcfs_result)",
+                  "assert implies(knot_free(regions) and len(result) == 1, result[0] is fcfs_result)",
                   "forall a, b | let x = fcfs_R[a][0] - 1 | let y = fcfs_R[b][0] - 1 | let g = GS[fcfs_R[a][0] - 1] | let h = GS[fcfs_R[b][0] - 1]"
                   " | let hyp = knot_free(regions) and 0 <= a and a < len(fcfs_R) and 0 <= b and b < len(fcfs_R) "
                   "and fcfs_R[a][0] < fcfs_R[b][0] and fcfs_R[b][0] < fcfs_R[a][1] and fcfs_R[a][1] < fcfs_R[b][1]"
